@@ -131,7 +131,7 @@ DropValue(s, a) ==
       sv == FoldSeq(LAMBDA c, acc : LET e1 == Emit(acc, [e |-> "sub", q |-> "main", item |-> c.id, hr |-> << >>, via |-> "actor"])
                                     IN IF acc.alive THEN [e1 EXCEPT !.deferQ = Append(@, c)] ELSE e1,
                     s0, s.actors[a].vd)
-      s1 == [FoldSeq(LAMBDA c, acc : DropSlabOwner(acc, c), sv, kids) EXCEPT !.actors[a].slab = << >>, !.actors[a].sfree = << >>,
+      s1 == [FoldSeq(LAMBDA c, acc : DropSlabOwner(acc, c), Emit(sv, [e |-> "slabdrop", aid |-> a]), kids) EXCEPT !.actors[a].slab = << >>, !.actors[a].sfree = << >>,
                                                                               !.actors[a].vd = << >>]
       s2 == FoldSeq(LAMBDA o, acc : DropOwner(acc, o), s1, s.actors[a].kept)
       s3 == FoldSeq(LAMBDA r, acc : DropRet(acc, r), s2, s.actors[a].keptR)
@@ -432,7 +432,7 @@ ExecClosure(s, c) ==
                   s2 == IF die # ""
                         THEN \* the failure takes precedence; a value returned nevertheless is just dropped
                              LET tt == DTerminate([r.s EXCEPT !.actors[a].die = ""], a, die)
-                             IN IF r.some THEN Emit(tt, [e |-> "vdrop", aid |-> a]) ELSE tt
+                             IN IF r.some THEN Emit(Emit(tt, [e |-> "vdrop", aid |-> a]), [e |-> "slabdrop", aid |-> a]) ELSE tt
                         ELSE IF r.some THEN
                           \* to_ready: install the value, mark Ready, flush the held calls now
                           IF r.s.actors[a].inner = "prep"
